@@ -3,7 +3,7 @@
 (*  [ev |-> "Flags", form ("installed"|"uninstalled"), which ("cflags"|"libs"),   *)
 (*   exit, out (pkg-config output, symbols), expected (seq of flags, symbols),    *)
 (*   exact (BOOLEAN: whole list must match; else `expected` must be contained in  *)
-(*   order)]                                                                      *)
+(*   order), absent (seq of flags that must not occur)]                           *)
 (*  [ev |-> "Simplify", set (seq of [op, v]), raised, accepts (seq over Points)]   *)
 (*  [ev |-> "Requires", set, configure_exit, exists (seq over Points of           *)
 (*   BOOLEAN: pkg-config --exists succeeded with the dependency at that version)] *)
@@ -26,6 +26,8 @@ DoFlags(e) ==
   /\ Need(ws # PcErr, "OutputIsWellQuoted", e.form)
   /\ IF e.exact THEN Need(ws = e.expected, "FlagsDenoteExactlyTheDeclaredOnes", ws)
      ELSE Need(Subseq(e.expected, ws), "DeclaredFlagsArePresentInOrder", ws)
+  \* flags of things the script explicitly did not declare (an empty includes= / libs= list)
+  /\ Need(\A x \in ToSet(e.absent) : x \notin ToSet(ws), "UndeclaredFlagsAreAbsent", ws)
 DoSimplify(e) ==
   LET T == ToSet(e.set) IN
   /\ Need(e.raised = Unsat(T), "RejectedIffUnsatisfiable", e.raised)
